@@ -290,6 +290,19 @@ def pickle_case(cname):
     ctx.require('pickle_preserves_params', ctx.cond(repr(est.get_params()) == repr(e2.get_params())))
     if hasattr(est, 'predict'):
       ctx.require('pickle_preserves_predict', ctx.cond(np.array_equal(est.predict(P), e2.predict(P))))
+    # fitted with an array preprocessor, parameter changed afterwards without refitting: the fitted state (not the parameter) answers
+    # queries on indices, before and after the round trip (pickle and deepcopy)
+    import copy
+    Xa, Xb = rs.randn(6, 3), rs.randn(6, 3)
+    est = mahal.fitted(cname, rs.randn(2, 3), preprocessor=Xa, threshold_=0.7)
+    est.set_params(preprocessor=Xb)
+    idx = np.array([[0, 1], [2, 5], [3, 3], [4, 0]])
+    for nm, e3 in (('pickle', pickle.loads(pickle.dumps(est))), ('deepcopy', copy.deepcopy(est))):
+      ctx.require('%s_preserves_pair_distance_on_indices' % nm, ctx.cond(np.array_equal(est.pair_distance(idx), e3.pair_distance(idx))))
+      ctx.require('%s_preserves_transform_on_indices' % nm, ctx.cond(np.array_equal(est.transform(idx[:, 0]), e3.transform(idx[:, 0]))))
+      ctx.require('%s_preserves_the_parameter' % nm, ctx.cond(np.array_equal(e3.get_params()['preprocessor'], Xb)))
+    ctx.require('fitted_state_answers_with_the_fit_time_preprocessor',
+                ctx.cond(np.array_equal(est.transform(idx[:, 0]), mahal.fitted(cname, est.components_, preprocessor=Xa).transform(idx[:, 0]))))
   return fn
 
 
@@ -309,6 +322,13 @@ def cases(tier, seed):
                     'fresh / cloned / failed-fit %s, every public query method' % n, concrete_only=True, validate=1, cost=1))
     out.append(case('pickle_%s' % n, pickle_case(n), FUNCS, 'one fitted state, pickle round trip (sampled, C-level)',
                     concrete_only=True, validate=1, cost=1))
+  # a value given through set_params is the one the next fit uses (so that a clone behaves identically): decided symbolically by the
+  # input-preparation harness shared with C05
+  from checks import c05
+  for pk in ('array', 'callable'):
+    out.append(case('set_params_preprocessor_used_by_next_fit_%s' % pk, c05.prepare_case('ITML', 2, 1, pk), FUNCS,
+                    'fit-time input preparation with symbolic index pairs, then set_params(preprocessor=other): the next preparation uses the new value',
+                    cost=3, max_paths=100000))
   return out
 
 
